@@ -13,6 +13,7 @@ import JanetModel.Peg.Entry
 import JanetModel.Peg.ReplaceLemmas
 import JanetModel.Peg.ValidateLemmas
 import JanetModel.Peg.CompileCorrect
+import JanetModel.Peg.BackrefLemmas
 
 namespace JanetModel.Props.C12
 open JanetModel.Peg
@@ -388,5 +389,60 @@ theorem lenprefix_leak_breaks_op_eq_den :
   decide
 
 end Witness
+
+/-! ### `has_backref` -/
+
+/-- **backref_flag_unobservable.**  peg.c records tagged captures only when the compiled grammar contains a back-reference
+    (`has_backref`); the documented meaning (Spec) always records them.  For ANY program (`fetch`: bytecode or source), any set
+    `R` of its rules that is closed under sub-rule operands and contains no RULE_GETTAG / RULE_BACKMATCH, any start rule in `R`:
+    a match attempt gives the same outcome - same error, same failure, same end position, same captures - whatever the flag is.
+    Hypothesis `numRaw = false` is the generated fact `Tie.number_capture_not_raw` about the current peg.c (on the pinned tree
+    `(number ...)` inside `%` made the flag observable - defect 2 of notes/C12.md). -/
+theorem backref_flag_unobservable {ρ : Type} (E : Env) (hraw : E.numRaw = false) (b b' : Bool) (fetch : ρ → Option (Instr ρ))
+    (R : ρ → Prop) (hR : Backref.Closed fetch R) (main : ρ) (hmain : R main) (fuel guard : Nat) :
+    denMatcher { E with hasBackref := b } fetch main fuel guard = denMatcher { E with hasBackref := b' } fetch main fuel guard :=
+  Backref.denMatcher_eq (E := { E with hasBackref := b' }) (E' := { E with hasBackref := b }) ⟨rfl, rfl, rfl, hraw, hraw⟩
+    fetch hR hmain fuel guard
+
+/-- the same for the operational model of `peg_rule` and all five entry points -/
+theorem backref_flag_unobservable_op {ρ : Type} (E : Env) (hraw : E.numRaw = false) (hE : E.lenprefixLeak = false) (b b' : Bool)
+    (fetch : ρ → Option (Instr ρ)) (R : ρ → Prop) (hR : Backref.Closed fetch R) (main : ρ) (hmain : R main) (fuel guard : Nat)
+    (start : Nat) (subst : Val) (one : Bool) :
+    let m := opMatcher { E with hasBackref := b } fetch main fuel guard
+    let m' := opMatcher { E with hasBackref := b' } fetch main fuel guard
+    m = m' ∧ pegMatch m start = pegMatch m' start ∧ pegFind m E.text.length start = pegFind m' E.text.length start ∧
+      pegFindAll m E.text.length start = pegFindAll m' E.text.length start ∧
+      pegReplace m E.text subst one start = pegReplace m' E.text subst one start := by
+  have h : opMatcher { E with hasBackref := b } fetch main fuel guard = opMatcher { E with hasBackref := b' } fetch main fuel guard := by
+    rw [opMatcher_eq_denMatcher _ (by exact hE), opMatcher_eq_denMatcher _ (by exact hE)]
+    exact backref_flag_unobservable E hraw b b' fetch R hR main hmain fuel guard
+  simp only [h, and_self]
+
+/-- **compiled_backref_flag_certified.**  Certificate for compiled bytecode: if every address of a list `S` decodes to an
+    instruction that does not read tags and whose rule operands are in `S` again (`closedNoTag`, a decidable check that the driver
+    runs on the REAL peg/compile dump whenever it says `has_backref = 0`), then running the program from any address in `S`
+    without tag recording (what peg.c does) gives what running it with tag recording (what Spec prescribes) gives. -/
+theorem compiled_backref_flag_certified (P : Program) (S : List Nat) (hS : Backref.closedNoTag (decode P) S = true)
+    (entry : Nat) (hentry : entry ∈ S) (E : Env) (hraw : E.numRaw = false) (hE : E.lenprefixLeak = false) (fuel guard : Nat) :
+    opMatcher { E with hasBackref := false } (decode P) entry fuel guard = opMatcher { E with hasBackref := true } (decode P) entry fuel guard :=
+  (backref_flag_unobservable_op E hraw hE false true (decode P) (· ∈ S) (Backref.closedNoTag_sound _ _ hS) entry hentry fuel guard
+    0 .nil false).1
+
+/-- non-vacuity: `(% (<- "a"))` = [ACCUMULATE 3 0; CAPTURE 6 0; LITERAL 1 'a'] has the certificate {0, 3, 6} (found by `reach`);
+    `(backmatch)` has none -/
+example : Backref.closedNoTag (decode ⟨#[17, 3, 0, 13, 6, 0, 0, 1, 97], #[]⟩) [0, 3, 6] = true := by decide
+example : Backref.reach (decode ⟨#[17, 3, 0, 13, 6, 0, 0, 1, 97], #[]⟩) 100 [0] [] = [6, 3, 0] := by decide
+example : Backref.closedNoTag (decode ⟨#[23, 0], #[]⟩) [0] = false := by decide
+/-- and the flag IS observable when a tag is read: `(* (<- 1 :t) (backmatch :t))` on "aa" matches (end position 2) only with
+    tag recording -/
+def matchedEnd (r : MRes) : Option Nat :=
+  match r with
+  | .ok (some (p, _)) => some p
+  | _ => none
+
+example :
+    matchedEnd (opMatcher { text := [97, 97], args := [], hasBackref := true } (decode ⟨#[7, 2, 4, 9, 13, 7, 1, 1, 1, 23, 1], #[]⟩) 0 50 1024 0) = some 2
+    ∧ matchedEnd (opMatcher { text := [97, 97], args := [], hasBackref := false } (decode ⟨#[7, 2, 4, 9, 13, 7, 1, 1, 1, 23, 1], #[]⟩) 0 50 1024 0) = none := by
+  decide
 
 end JanetModel.Props.C12
